@@ -78,8 +78,23 @@ func genC12(seed uint64, idx int, tier string) *Scenario {
 			a := Actor{Kind: "sshc", Name: fmt.Sprintf("c%d", c), Src: clientAddr(c), Dst: sensorIP + ":22"}
 			for k := r.Range(1, 2); k > 0; k-- {
 				st := c12Step{Kind: "sshlogin", User: r.Pick(c12Users), MsgID: 31000 + c*100 + k, PubKey: r.Chance(0.3)}
-				for j := r.Range(1, 4); j > 0; j-- {
+				np := r.Range(1, 4)
+				if r.Chance(0.15) {
+					np = r.Range(6, 10) // many failures before the attempt that counts
+				}
+				for j := np; j > 0; j-- {
 					st.Passwords = append(st.Passwords, r.Pick(c12Pass))
+				}
+				if np > 4 && len(creds) > 0 {
+					// ... which is a configured pair when there is one for this user
+					for _, c := range creds {
+						if strings.HasPrefix(c, st.User+":") {
+							st.Passwords[len(st.Passwords)-1] = strings.TrimPrefix(c, st.User+":")
+							for k := range st.Passwords[:len(st.Passwords)-1] {
+								st.Passwords[k] = "wrong-" + fmt.Sprint(k)
+							}
+						}
+					}
 				}
 				ej, _ := json.Marshal(st)
 				a.Ops = append(a.Ops, Op{K: "c12", Exp: ej})
@@ -119,8 +134,19 @@ func genC12(seed uint64, idx int, tier string) *Scenario {
 					}
 				}
 				st := c12Step{Kind: "bind", User: at.User, Pass: at.Pass, MsgID: id}
+				version := 3
+				if r.Chance(0.15) {
+					// a bind the service refuses for its protocol version (whatever the credentials): not a login
+					version = r.Pick2(1, 0)
+					st.Kind = "bind-refused-version"
+					if len(creds) > 0 && r.Chance(0.6) {
+						if i := strings.Index(creds[0], ":"); i >= 0 {
+							st.User, st.Pass, dn = creds[0][:i], creds[0][i+1:], creds[0][:i]
+						}
+					}
+				}
 				ej, _ := json.Marshal(st)
-				o := SendOp(ldapBind(id, dn, at.Pass), nil, "bind "+dn)
+				o := SendOp(ldapBindV(id, version, dn, st.Pass), nil, "bind "+dn)
 				o.Exp = ej
 				a.Ops = append(a.Ops, o)
 				id++
@@ -177,8 +203,10 @@ func genC12(seed uint64, idx int, tier string) *Scenario {
 	return sc
 }
 
-func ldapBind(id int, dn, pw string) []byte {
-	return bSeq(0x30, bInt(0x02, int64(id)), bSeq(0x60, bInt(0x02, 3), bOct(dn), bStr(0x80, pw))).enc(false)
+func ldapBind(id int, dn, pw string) []byte { return ldapBindV(id, 3, dn, pw) }
+
+func ldapBindV(id, version int, dn, pw string) []byte {
+	return bSeq(0x30, bInt(0x02, int64(id)), bSeq(0x60, bInt(0x02, int64(version)), bOct(dn), bStr(0x80, pw))).enc(false)
 }
 
 func ldapGated(id int, op, dn string) []byte {
@@ -477,6 +505,13 @@ func c12CheckLDAP(sc *Scenario, obs *Obs, creds []string, res *Result) {
 					res.probe("ldap-gated-allowed-after-login", 1)
 				}
 				res.probe("ldap-gated-probes", 1)
+			case "bind-refused-version":
+				if got && code == 0 {
+					res.Violate("login-accepted-for-unconfigured-credentials", "ldap", fmt.Sprintf("conn %d: a bind with an unsupported protocol version (message %d) was answered with success", ai, st.MsgID))
+					return
+				}
+				res.probe("ldap-binds-refused-for-version", 1)
+				// refused: the connection is exactly as logged in as it was
 			case "bind":
 				bindNo++
 				if !got {
